@@ -210,7 +210,8 @@ def _run_sequential(tape, out: Outcome) -> None:
                 k_ = tape.pick(KEYS)
                 # one store in four writes back the very object the key already holds (a store is still a use)
                 same = tape.draw(4) == 0 and k_ in m.map
-                op = (name, k_, m.map[k_] if same else val)
+                none_ = tape.draw(8) == 0  # None is a value like any other ("present with value None" is not "absent")
+                op = (name, k_, m.map[k_] if same else (None if none_ else val))
                 if same:
                     out.count("seq_store_of_identical_object")
             else:
